@@ -15,9 +15,10 @@ CHECKS = {
              "disconnects): every advert a remote receives is checked against the store at that instant, every file re-hashed; plus "
              "a manager-side part (completion histories on the real Session with duplicate completions, kills and joiners: the extractor "
              "is started only when every piece is owned, ownership arises only through the assignee's PieceDone).",
-        note="Partial: that the piece the manager marks is the piece the task verified (task's piece_rx index = manager's piece_index for "
-             "that peer under every interleaving) is not proved in Coq; it is exercised end to end. SHA-1 uninterpreted. Torn file on crash "
-             "during fs::write not modelled. No axioms.",
+        note="The link between the two (the piece the manager marks is the piece the task verified) is proved over the composition of "
+             "task and manager for one peer with arbitrary interleaved manager steps (C01_pair_invariant, C01_marked_is_verified, "
+             "C01_env_steps), under the modelling assumption that a task's fire-and-forget commands are handled before its next event. "
+             "SHA-1 uninterpreted. Torn file on crash during fs::write not modelled. No axioms.",
         technique="Coq proof (exhaustive case analysis of task and manager step functions) + end-to-end exploration with store oracle",
         design="2/C01"),
     "C02": dict(
